@@ -7,6 +7,7 @@ import (
 	"net/netip"
 	"os"
 
+	"github.com/mycoria/mycoria/m"
 	vf "github.com/mycoria/mycoria/zzvf"
 )
 
@@ -224,12 +225,28 @@ func VfCrashScenario(file string) (hadOld, newEmpty bool) {
 		vfFiles[file+".tmp"] = &vfFile{segs: [][]byte{staleTok[:k]}}
 	}
 
-	s := &JSONFileStorage{filename: file}
-	s.routers = map[netip.Addr]*StoredRouter{netip.Addr{}: nil, netip.IPv6Loopback(): nil}
-	s.mappings = map[string]StoredMapping{}
+	// this run: the router started from whatever was there (real loader), changed its state
+	// through the storage API, and now shuts down
+	vfNoKill = true
+	s, lerr := NewJSONFileStorage(file)
+	vfNoKill = false
+	vf.Assert(lerr == nil && s != nil, "router-refuses-to-start")
+	if lerr != nil {
+		vf.Stop()
+	}
 	newEmpty = vf.Bool() // the state being saved may be empty (all routers pruned, no mappings)
 	if newEmpty {
-		s.routers = map[netip.Addr]*StoredRouter{}
+		for ip := range s.routers {
+			_ = s.DeleteRouter(ip)
+		}
+		if !hadOld {
+			// nothing was there and nothing is: still a shutdown (the API was used)
+			_ = s.DeleteRouter(netip.IPv6Loopback())
+		}
+	} else {
+		// two routers in the new state (one of them replaces the old run's entry, if any)
+		_ = s.SaveRouter(&StoredRouter{Address: &m.PublicAddress{IP: netip.Addr{}}})
+		_ = s.SaveRouter(&StoredRouter{Address: &m.PublicAddress{IP: netip.IPv6Loopback()}})
 	}
 	err := s.Stop()
 	vf.Assert(vfCrashed || err == nil, "stop-failed-without-crash")
